@@ -381,6 +381,12 @@ def run_load(ctx, b, n):
         real = real_call(lambda: list(L.load.limiter(me, producer())))
         it = {'__iter__': rows, '__raise_after__': 'Boom'} if failing else rows
         b.add('load_limiter', [None, it, limit], real, case=[len(rows), limit, failing])
+    # stripper: text cells with surrounding blanks of several kinds, non-text cells, empty cells first / later
+    import copy
+    cells = ['x', ' x', 'x ', '\tx\n', ' a b ', '', None, 3, '\xa0x', 'x\u3000', '\x0bx', ' ', 'é ', True, '\r\nx']
+    for _ in range(n):
+        rows = [{k: rng.choice(cells) for k in ('a', 'b', 'c')} for _ in range(rng.randint(0, 4))]
+        b.add('load_stripper', [None, rows], real_call(lambda: list(L.load.stripper(None, iter(copy.deepcopy(rows))))), case=rows)
     b.flush()
 
 
